@@ -200,6 +200,7 @@ func checkC07(p *Prog, l *Ledger) {
 	l.CallSites = counts["P1"] + counts["P2"] + counts["P3"] + counts["P4"] + counts["P5"] + counts["P6"]
 	l.Extra["class_counts"] = counts
 	checkEvalNeverNilSignal(p, l)
+	checkTypedNil(p, l, fns, reach)
 	checkEnvConstruction(p, l)
 	checkRecursion(p, l, reach)
 	lem.finish()
@@ -1032,4 +1033,121 @@ func mentionsAST(t types.Type) bool {
 		}
 	}
 	return false
+}
+
+// checkTypedNil (P6): a pointer that may be nil is converted to an interface.  The interface value is then non-nil
+// (`err != nil` succeeds, a type switch selects the pointer case) while every method with a pointer receiver and every
+// field access dereferences nil — the "typed nil" trap.  Provenance is followed through φ, tuple extraction, module
+// function results (all returns) and parameters (all call sites), to a bounded depth; a dominating `v != nil` test
+// at the conversion discharges it.
+func checkTypedNil(p *Prog, l *Ledger, fns []*ssa.Function, reach map[*ssa.Function]bool) {
+	type key struct {
+		v     ssa.Value
+		depth int
+	}
+	var nilPossible func(v ssa.Value, depth int, seen map[ssa.Value]bool) (bool, string)
+	retNil := func(fn *ssa.Function, idx int, depth int, seen map[ssa.Value]bool) (bool, string) {
+		if fn == nil || fn.Blocks == nil || !p.InModule(fn) {
+			return false, ""
+		}
+		may, why := false, ""
+		instrsOf(fn, func(in ssa.Instruction) {
+			if ret, ok := in.(*ssa.Return); ok && idx < len(ret.Results) && !may {
+				if m, w := nilPossible(ret.Results[idx], depth+1, seen); m {
+					may, why = true, fmt.Sprintf("%s returns it at %s (%s)", p.FuncKey(fn), p.InstrPos(in), w)
+				}
+			}
+		})
+		return may, why
+	}
+	nilPossible = func(v ssa.Value, depth int, seen map[ssa.Value]bool) (bool, string) {
+		if depth > 4 || seen[v] {
+			return false, ""
+		}
+		seen[v] = true
+		switch x := v.(type) {
+		case *ssa.Const:
+			if x.IsNil() {
+				return true, "nil constant"
+			}
+		case *ssa.Phi:
+			for _, e := range x.Edges {
+				if m, w := nilPossible(e, depth, seen); m {
+					return true, w
+				}
+			}
+		case *ssa.ChangeType:
+			return nilPossible(x.X, depth, seen)
+		case *ssa.Extract:
+			if c, ok := x.Tuple.(*ssa.Call); ok {
+				return retNil(c.Call.StaticCallee(), x.Index, depth, seen)
+			}
+		case *ssa.Call:
+			return retNil(x.Call.StaticCallee(), 0, depth, seen)
+		case *ssa.Parameter:
+			fn := x.Parent()
+			idx := -1
+			for i, prm := range fn.Params {
+				if prm == x {
+					idx = i
+				}
+			}
+			if idx < 0 {
+				return false, ""
+			}
+			for _, cs := range p.CallSites(fn) {
+				c := cs.Common()
+				if c.IsInvoke() || c.StaticCallee() != fn {
+					continue
+				}
+				if idx < len(c.Args) {
+					if m, w := nilPossible(c.Args[idx], depth+1, seen); m {
+						return true, fmt.Sprintf("passed at %s (%s)", p.InstrPos(cs.(ssa.Instruction)), w)
+					}
+				}
+			}
+		}
+		return false, ""
+	}
+	n := 0
+	for _, fn := range fns {
+		if !reach[fn] {
+			continue
+		}
+		fk := p.FuncKey(fn)
+		seenKey := map[string]int{}
+		instrsOf(fn, func(in ssa.Instruction) {
+			mi, ok := in.(*ssa.MakeInterface)
+			if !ok {
+				return
+			}
+			if _, isPtr := mi.X.Type().Underlying().(*types.Pointer); !isPtr {
+				return
+			}
+			n++
+			k := fk + "#iface(" + typeStr(mi.X.Type()) + "→" + typeStr(mi.Type()) + ")"
+			seenKey[k]++
+			if seenKey[k] > 1 {
+				k = fmt.Sprintf("%s#%d", k, seenKey[k])
+			}
+			may, why := nilPossible(mi.X, 0, map[ssa.Value]bool{})
+			if may {
+				for _, g := range GuardsAt(in.Block()) {
+					if b, ok := g.Cond.(*ssa.BinOp); ok && (b.X == mi.X && isNilConst(b.Y) || b.Y == mi.X && isNilConst(b.X)) {
+						if (b.Op == token.NEQ && g.Truth) || (b.Op == token.EQL && !g.Truth) {
+							may = false
+						}
+					}
+				}
+			}
+			if may {
+				l.Violate("C07/P6-nil", k, p.InstrPos(in), fmt.Sprintf("a %s that may be nil (%s) is converted to %s: the interface is non-nil, so nil tests pass and the first method call or field access through it dereferences nil (Go panic instead of a Borno runtime error)", typeStr(mi.X.Type()), why, typeStr(mi.Type())))
+			} else {
+				l.Discharge("C07/P6-nil", k, p.InstrPos(in), "pointer converted to an interface is never nil here (fresh allocation, or a nil-tested value; provenance followed through φ, results and arguments)", false)
+			}
+		})
+	}
+	if n < 30 {
+		l.Violate("C07/vacuity", "pointer-to-interface conversions", "", fmt.Sprintf("only %d pointer→interface conversions seen (expected >= 30: every AST node and signal)", n))
+	}
 }
